@@ -21,7 +21,7 @@ from .values import (FALSE, NONE, TRUE, AbsList, AltV, BoundV, Const, FuncV, Lis
 
 from .icommon import (MAX_DEPTH, MAX_PATHS, PathAbort, _Break, _Continue, _Raise, _Return, _describe, _load,
                       _walk_own)
-from .interp_expr import ExprMixin, _Lazy
+from .interp_expr import AST_PREFIX, ExprMixin, _Lazy
 from .interp_while import WhileMixin
 
 
@@ -1102,10 +1102,36 @@ class Interp(ExprMixin, WhileMixin):
             if v.items or not v.opaque_keys:
                 return bool(v.items)
             return True
-        if isinstance(v, (NewNode, RefV, BoundV, FuncV)):
+        if isinstance(v, (RefV, BoundV, FuncV)):
             return True
+        if isinstance(v, NewNode):
+            if self._custom_truth(AST_PREFIX + v.cls) is None:
+                return True
+            self.event("custom_truthiness", value=_describe(v), kinds=[v.cls])
+            return self.unknown_bool(f"bool({_describe(v)})")
         if isinstance(v, ObjV):
-            return True
+            ct = self._custom_truth(v.cls) if v.cls in self.repo.classes else None
+            if ct is None:
+                return True
+            r = self.call_function(ct[0].module, ct[1], [v], {}, ct[0].qual)
+            if ct[1].name == "__len__":
+                r = self.resolve_alt(r)
+                return bool(r.v) if isinstance(r, Const) else self.unknown_bool(f"len({_describe(v)})>0")
+            return self.truthy(r, label)
+        if isinstance(v, NodeV) and v.kinds - {"NoneType"}:
+            custom = {k for k in v.kinds if k != "NoneType" and self._custom_truth(AST_PREFIX + k) is not None}
+            if custom:
+                # a node class that defines __bool__/__len__: `if node:` no longer means `node is not None`
+                if "NoneType" in v.kinds or custom != v.kinds:
+                    pick = self.choose(2, f"customtruth({v.path})") == 0
+                    self.cond(f"{v.path} is one of {sorted(custom)}", pick)
+                    if pick:
+                        v.kinds = set(custom)
+                    else:
+                        v.kinds = v.kinds - custom
+                        return self.truthy(v, label)
+                self.event("custom_truthiness", value=_describe(v), kinds=sorted(custom))
+                return self.unknown_bool(f"bool({v.path})")
         if isinstance(v, NodeV):
             if "NoneType" in v.kinds:
                 if len(v.kinds) == 1:
@@ -1139,6 +1165,16 @@ class Interp(ExprMixin, WhileMixin):
             else:
                 v.len_eq = 0
         return r
+
+    def _custom_truth(self, qual: str):
+        """(class, def) of the __bool__ / __len__ an in-repo class resolves, if any"""
+        cache = self.shared.setdefault("custom_truth", {})
+        if qual not in cache:
+            r = None
+            if qual in self.repo.classes:
+                r = self.repo.lookup_method(qual, "__bool__") or self.repo.lookup_method(qual, "__len__")
+            cache[qual] = r
+        return cache[qual]
 
     def sym_compare_eq(self, a: V, c: Any) -> bool:
         """a == c for an opaque value a and a python constant c, consistent along the path."""
